@@ -20,6 +20,22 @@ RESOLVE_FUNCS = [
     "resolve.resolve_citations",
 ]
 
+OFFSET_FUNCS = [
+    "models.CitationBase.span", "models.CitationBase.full_span", "models.CitationBase.span_with_pincite",
+    "helpers.match_on_tokens", "helpers.clean_pin_cite", "helpers.process_parenthetical", "helpers.extract_pin_cite",
+    "helpers.add_post_citation", "helpers.add_defendant", "helpers.add_pre_citation", "helpers.add_law_metadata",
+    "helpers.add_journal_metadata", "models.ResourceCitation.add_metadata", "models.CaseCitation.guess_court",
+    "models.FullCaseCitation.add_metadata", "models.FullLawCitation.add_metadata", "models.FullJournalCitation.add_metadata",
+    "find._extract_id_citation", "find._extract_supra_citation", "find._extract_shortform_citation", "find._extract_full_citation",
+]
+OFFSET_CONTRACTS = ["a_common", "c18_helpers", "helpers", "find"]
+PART_ASSUMPTION = ("PART(words, text, offs): the token list partitions the document text pointwise over a ghost offset array "
+                   "(a precondition here; it is the postcondition of Tokenizer.tokenize, C12)")
+NONL_ASSUMPTION = "plain-string words contain no newline (every newline is a ParagraphToken of the shipped extractors)"
+REGEX_LEMMAS = ("regex lemmas 4.2 (pin_cite group at the head of POST_{FULL,SHORT,JOURNAL}_CITATION_REGEX matches, year group is \\d{4}, "
+                "group order before the parenthetical, POST_SHORT/LAW/JOURNAL patterns match the empty string, antecedent group always participates) "
+                "are assumed as named axioms keyed by the regex constant")
+
 PROPS = {
     "C06": {
         "contracts": ["a_common", "resolve"],
@@ -47,10 +63,20 @@ PROPS = {
         "not_covered": [],
         "extra_names": ["reads_only_current"],
     },
+    "C02": {
+        "contracts": OFFSET_CONTRACTS,
+        "functions": OFFSET_FUNCS,
+        "assumptions": [PART_ASSUMPTION, NONL_ASSUMPTION, REGEX_LEMMAS,
+                        "E-DATACLASS-CTOR: the dataclass-generated constructors (+ __post_init__) of citation/token classes set the declared fields",
+                        "the class invariant SPANS is proved at every construction site (_extract_* and the add_metadata chain); "
+                        "the collecting loop of get_citations, filter_citations and the reference-citation extractors are covered under C03/C19"],
+        "not_covered": ["the easter-egg path of get_citations (plain_text == 'eyecite' returns a canned citation with span (0, 99))",
+                        "markup mode (offsets w.r.t. the cleaned text) is covered under C19's offsets_valid clause"],
+    },
     "C18": {
-        "contracts": ["c18_helpers"],
+        "contracts": OFFSET_CONTRACTS,
         "functions": ["helpers.get_year", "models.Edition.includes_year", "models.ResourceCitation.guess_edition",
-                      "helpers.disambiguate_reporters"],
+                      "helpers.disambiguate_reporters"] + OFFSET_FUNCS,
         "assumptions": ["_highest_valid_year is a symbolic integer (date.today().year + 1 at import time)",
                         "datetime.now().year is a symbolic integer read from an external object"],
         "not_covered": [],
